@@ -414,7 +414,9 @@ def gen_chain(ctx, i):
     opt = {'tgt_kind': r.choice(['geometry', 'volume']),
            'mode': r.choice(['CONSTANT'] * 5 + ['MINIMUM', 'MAXIMUM', 'MEAN', 'MEDIAN', 'EDGE', 'EDGE']),
            'channels': r.choice([0, 0, 0, 1, 2, 3]), 'per_channel': r.random() < 0.4,
-           'tol': r.choice([TOL] * 5 + [F(1, 1000), F(1, 10 ** 7)]),
+           # tol <= 1 is where matching can work at all (1 itself is a decision boundary: probed at 1/4); above 1 every target is refused
+           # with a ValueError (theorem match_tol_gt_one): compared with the model, not demanded by the oracle
+           'tol': r.choice([TOL] * 10 + [F(1, 1000), F(1, 1000), F(1, 10 ** 7), F(1, 10 ** 7), F(1, 4), F(3, 2), F(4)]),
            'for_variant': r.choice(['same'] * 4 + ['tgt_none', 'src_none']),
            'src_kind': r.choice(['volume'] * 7 + ['geometry'])}
     if opt['for_variant'] == 'tgt_none':
@@ -429,6 +431,11 @@ def run_geometry_source_case(ctx, case, src_g, tgt_g, tgt, opt, ops, reqs, pendi
     st, res = _call(src.match_geometry, tgt, tol=float(opt['tol']))
     ctx.case(nontrivial_key=('chain-geom', tuple(ops), tuple(src_g['shape']), tuple(tgt_g['shape'])) if st == 'ok' else None,
              stream='chain', src_kind='geometry', chain_length=len(ops), outcome=('ok' if st == 'ok' else res))
+    if st != 'ok' and opt['tol'] > 1:
+        ctx.hist('tol_above_one', f'refused:{res}')
+        reqs.append(model_match_req(src_g, np.zeros(src_g['shape'], np.int32), tgt_g, opt['tol'], 0))
+        pending.append(('match', case, ('err', _err_kind(res)), False))
+        return
     if st != 'ok':
         ctx.fail(case, f'reachable target refused (geometry source): {res}', site='match_geometry/refused')
         return
@@ -466,7 +473,9 @@ def run_chain_case(ctx, i, reqs, pending):
         ctx.hist('chain_ops', o.split(':')[0])
     for t in crop_kinds:
         ctx.hist('crop_kinds', t)
-    if st != 'ok':
+    if st != 'ok' and opt['tol'] > 1:
+        ctx.hist('tol_above_one', f'refused:{res}')
+    elif st != 'ok':
         ctx.fail(case, f'reachable target refused: {res}', site='match_geometry/refused')
     else:
         # (a voxel that an earlier crop removed and a later pad re-covers DOES overlap the source: the expectation
